@@ -19,8 +19,14 @@ def loc(l): return t.Location(uri=l["uri"], range=rng(l["r"]))
 class PositionLike:
     line = 0
     character = 0
+class RangeLike:
+    start = t.Position(line=0, character=0)
+    end = t.Position(line=0, character=0)
+class LocationLike:
+    uri = "u"
+    range = t.Range(start=t.Position(line=0, character=0), end=t.Position(line=0, character=0))
 FOREIGN = {"int": 3, "str": "0:0", "none": None, "tuple": (0, 0), "float": 1.5, "dict": {"line": 0, "character": 0},
-           "position-like": PositionLike(), "pos": pos((0, 0)), "range": rng(((0, 0), (0, 0))), "loc": loc({"uri": "u", "r": ((0, 0), (0, 0))})}
+           "position-like": PositionLike(), "range-like": RangeLike(), "location-like": LocationLike(), "pos": pos((0, 0)), "range": rng(((0, 0), (0, 0))), "loc": loc({"uri": "u", "r": ((0, 0), (0, 0))})}
 OPS = {"lt": operator.lt, "le": operator.le, "gt": operator.gt, "ge": operator.ge, "eq": operator.eq, "ne": operator.ne}
 def run(op, a, b):
     try:
